@@ -34,7 +34,7 @@ def one(seed_dir: str) -> dict:
             r = subprocess.run(['patch', '-p1', '--fuzz=3', '-i', str(sd / 'patch.diff')], cwd=scratch, capture_output=True, text=True)
             how = 'patch --fuzz=3'
         if r.returncode != 0:
-            return {'id': sid, 'applied': False, 'error': (r.stdout + r.stderr)[-300:]}
+            return {'id': sid, 'path': str(sd), 'applied': False, 'error': (r.stdout + r.stderr)[-300:]}
         fired = {}
         for pid in ALL:
             buf = io.StringIO()
@@ -45,7 +45,7 @@ def one(seed_dir: str) -> dict:
                 rules = sorted({l.split()[1] for l in out.splitlines() if l.strip().startswith('VIOLATED ')})
                 fired[pid] = {'rc': rc, 'rules': rules, 'error': [l for l in out.splitlines() if 'ANALYSIS-ERROR' in l][:1]}
         prop = sid.split('-')[0]
-        return {'id': sid, 'applied': True, 'how': how, 'fired': fired,
+        return {'id': sid, 'path': str(sd), 'applied': True, 'how': how, 'fired': fired,
                 'detected_by_own_property': fired.get(prop, {}).get('rc') == 1,
                 'detected': any(v['rc'] == 1 for v in fired.values())}
     finally:
@@ -56,19 +56,38 @@ def main():
     args = [a for a in sys.argv[1:] if not a.startswith('--')]
     jobs = 16
     seeds = sorted(str(p) for p in (VERIF / 'seeded').iterdir() if (p / 'patch.diff').exists() and (not args or p.name in args))
+    bdir = VERIF / 'seeded' / 'benign'
+    benign = sorted(str(p) for p in bdir.iterdir() if (p / 'patch.diff').exists() and (not args or p.name in args)) if bdir.exists() else []
+    seeds = seeds + benign
     with ProcessPoolExecutor(max_workers=jobs) as ex:
         results = list(ex.map(one, seeds))
-    if not args:
-        (VERIF / 'seeded' / 'SWEEP.json').write_text(json.dumps(results, indent=1) + '\n')
-    det = sum(1 for r in results if r.get('detected'))
-    own = sum(1 for r in results if r.get('detected_by_own_property'))
+    bnames = {Path(b).name for b in benign}
+    write = not args
     for r in results:
+        r['benign'] = Path(r['path']).parent.name == 'benign'
+    real = [r for r in results if not r['benign']]
+    det = sum(1 for r in real if r.get('detected'))
+    own = sum(1 for r in real if r.get('detected_by_own_property'))
+    for r in results:
+        if r['benign']:
+            if not r.get('applied'):
+                print(f"{r['id']:9s} benign  PATCH DOES NOT APPLY")
+                continue
+            f = '; '.join(f"{k}:{'/'.join(v['rules']) or ('ERR' if v['rc'] == 2 else '?')}" for k, v in r['fired'].items())
+            print(f"{r['id']:9s} benign  {'silent' if not r['fired'] else 'FALSE ALARM ' + f}")
+            continue
         if not r.get('applied'):
             print(f"{r['id']:8s} PATCH DOES NOT APPLY {r.get('error', '')[:100]}")
             continue
         f = '; '.join(f"{k}:{'/'.join(v['rules']) or ('ERR' if v['rc'] == 2 else '?')}" for k, v in r['fired'].items())
         print(f"{r['id']:8s} {'DETECTED' if r['detected'] else 'missed  '} {'(own)' if r['detected_by_own_property'] else '     '} {f}")
-    print(f"{len(results)} seeded changes: {det} detected by some check, {own} by the check of their own property")
+    print(f"{len(real)} seeded changes: {det} detected by some check, {own} by the check of their own property")
+    if write:
+        (VERIF / 'seeded' / 'SWEEP.json').write_text(json.dumps(results, indent=1) + '\n')
+    b = [r for r in results if r['benign']]
+    if b:
+        print(f"{len(b)} behaviour-preserving refactorings: {sum(1 for r in b if r.get('applied') and not r['fired'])} silent, "
+              f"{sum(1 for r in b if r.get('fired'))} false alarms")
 
 
 if __name__ == '__main__':
